@@ -21,7 +21,11 @@ EXTRA = {'C01-1': ['C03'], 'C19-3': ['C17'], 'C02-2': ['C03'],
          'C05-w5-2': ['C08'], 'C08-w5-1': ['C20'], 'C09-w5-2': ['C10'],
          'C01-w6-2': ['C02'], 'C02-w6-2': ['C04'], 'C07-w6-2': ['C18'],
          'C12-w6-2': ['C13'], 'C17-w6-2': ['C18', 'C08'], 'C05-w6-2': ['C06'],
-         'C11-w6-2': ['C10'], 'C09-w6-1': ['C08']}
+         'C11-w6-2': ['C10'], 'C09-w6-1': ['C08'],
+         'C02-w7-1': ['C17'], 'C05-w7-1': ['C17'], 'C11-w7-1': ['C17'],
+         'C10-w7-2': ['C11', 'C17'], 'C06-w7-1': ['C18'],
+         'C07-w7-1': ['C14'], 'C07-w7-2': ['C10', 'C01'],
+         'C12-w7-2': ['C01'], 'C01-w7-1': ['C07']}
 jobs = int(sys.argv[1]) if len(sys.argv) > 1 else 3
 only = sys.argv[2] if len(sys.argv) > 2 else ''
 
